@@ -35,6 +35,13 @@ def make(kind):
     from photutils.segmentation import SourceCatalog
     data, segm, pos = scene()
     err = np.ones_like(data)
+    if kind == 'apstats_sky':
+        # sky apertures on a wide-field image (0.2 deg / pixel TAN: the pixel scale varies across the frame), converted with the WCS
+        import astropy.units as u
+        from photutils.aperture import SkyCircularAperture
+        w2 = WCS(naxis=2); w2.wcs.crpix = [5, 4]; w2.wcs.cdelt = [-0.2, 0.2]; w2.wcs.crval = [50.0, 10.0]; w2.wcs.ctype = ['RA---TAN', 'DEC--TAN']
+        sky = w2.pixel_to_world([p[0] for p in pos], [p[1] for p in pos])
+        return ApertureStats(data, SkyCircularAperture(sky, 0.8 * u.deg), error=err, wcs=w2, local_bkg=np.array([0.1, 0.2, 0.0, 0.3]))
     if kind == 'apstats':
         # the last aperture is degenerate (a mask leaves one row of it): its covariance gets the thin-source regularisation, which
         # must stay a per-source matter
@@ -119,12 +126,12 @@ def index_obj(obj, form, ids, objkind):
         return obj[[2, 0]] if n >= 3 else obj[[0]]
     if form == 'bool':
         return obj[np.array([i % 2 == 1 for i in ids])]
-    lab = (lambda o: [int(x) for x in np.atleast_1d(o.labels)]) if objkind != 'apstats' else (lambda o: [int(x) for x in np.atleast_1d(o.ids)])
+    lab = (lambda o: [int(x) for x in np.atleast_1d(o.labels)]) if not objkind.startswith('apstats') else (lambda o: [int(x) for x in np.atleast_1d(o.ids)])
     if form == 'getlabel':
-        return obj.get_label(lab(obj)[-1]) if objkind != 'apstats' else obj.get_id(lab(obj)[-1])
+        return obj.get_label(lab(obj)[-1]) if not objkind.startswith('apstats') else obj.get_id(lab(obj)[-1])
     if form == 'getlabels':
         sel = [lab(obj)[1], lab(obj)[0]] if n >= 2 else lab(obj)
-        return obj.get_labels(sel) if objkind != 'apstats' else obj.get_ids(sel)
+        return obj.get_labels(sel) if not objkind.startswith('apstats') else obj.get_ids(sel)
     raise core.Machinery(form)
 
 
@@ -170,8 +177,8 @@ def replay(args):
             elif op == 'get_absent':
                 ob = objs[o]
                 try:
-                    r = ob.get_label(int(arg)) if objkind != 'apstats' else ob.get_id(int(arg))
-                    got = [int(x) for x in np.atleast_1d(r.labels if objkind != 'apstats' else r.ids)]
+                    r = ob.get_label(int(arg)) if not objkind.startswith('apstats') else ob.get_id(int(arg))
+                    got = [int(x) for x in np.atleast_1d(r.labels if not objkind.startswith('apstats') else r.ids)]
                     out.append(('get_label_selects_by_label', dict(sig, arg='absent'), {'history': ops, 'requested': int(arg), 'object_ids': post['ids'][o], 'returned': got}))
                 except Exception:  # noqa  (any refusal is fine: the statement only forbids returning another source)
                     pass
@@ -198,7 +205,7 @@ def replay(args):
         for name, ob in objs.items():
             ob._verif_ids = post['ids'][name]
         # registries (Independent) - SourceCatalog only
-        if objkind != 'apstats':
+        if not objkind.startswith('apstats'):
             for name, ob in objs.items():
                 exp = []
                 for nm in post['reg'][name]:
@@ -241,6 +248,8 @@ def run(ctx):
         jobs.append(('srccat', h))
         if not has_extra:
             jobs.append(('apstats', h))
+            if any(s['op'] == 'index' for s in h) and len(jobs) % 3 == 0:
+                jobs.append(('apstats_sky', h))
             if any(s['op'] == 'index' for s in h) and len(jobs) % 5 == 0:
                 jobs.append(('srccat_det', h))
     res = core.pmap(replay, jobs, chunksize=4)
